@@ -178,7 +178,7 @@ def run(ctx):
     res.floor("R13.8", "loop head of advance_by", len(heads) + len(tfe), 1)
     for c in tfe:
         # (0..n).try_for_each(|i| ..): the closure's Ok comes only from a flag that is Some(Ok(_)) — exhaustion and the invalid suffix both give Err(i)
-        cbs = closure_bodies(fx, c)[-1:]
+        cbs = own_closures(fx, c)
         okb = bool(cbs)
         for cb in cbs:
             nx = r"branch\(ok_or\((next|next_flag)\(arg1\.0\),\w+\)\)"
@@ -201,7 +201,7 @@ def run(ctx):
     # ---- R13.9 is_number: after the scan the only rejection is a dangling exponent
     isn = fx.body("clap_lex::is_number")
     # after the scan: the loop's None edge, or (closure form `bytes.iter().enumerate().all(|(i, c)| ..)`) the true edge of all(..)
-    post = [d for d in isn.def_sites(0) if any(re.match(r"^V0:next\(into_iter\(enumerate\(|^T:all\(enumerate\(", g) for g in guard_strs(isn, d[0]))]
+    post = [d for d in result_defs(isn) if any(re.match(r"^V0:next\(into_iter\(enumerate\(|^T:all\(enumerate\(", g) for g in guard_strs(isn, d[0]))]
     res.floor("R13.9", "post-scan results of is_number", len(post), 2)
     # which variant of `position_of_e` a block sits on, read from the discriminant switches on that local itself (when the scan is a
     # closure the local is updated through a captured &mut and its canonical expression is just its initial value)
@@ -230,7 +230,13 @@ def run(ctx):
     # ---- R13.8 next_flag / is_empty
     nf = fx.body("clap_lex::ShortFlags::next_flag")
     rets = [(i, s_) for i, j, s_ in nf.stmts() if s_["k"] == "assign" and s_["place"] == 0 and s_["rv"]["k"] == "agg"]
-    res.floor("R13.8", "return constructions in next_flag", len(rets), 3)
+    # `self.invalid_suffix.take().map(Err)`: Some(Err(suffix)) exactly once (take() clears it) and None afterwards, in one expression
+    tk = [d for d in nf.def_sites(0) if isinstance(d[3], Call) and d[3].is_(r"Option(<[^>]*>)?::map$") and re.fullmatch(r"take\(self\.invalid_suffix\)", expr(nf, d[3].args[0]))]
+    for d in tk:
+        gl_ = guard_strs(nf, d[0])
+        res.check(("!V1:next(self.utf8_prefix)" in gl_ or "V0:next(self.utf8_prefix)" in gl_) and any(re.search(r"Result::Err$|::Err$", q) for q in d[3].fnitems), "R13.8", "suffix-once-after-prefix", "%s bb%d" % (nf.where(), d[0]),
+                  "invalid_suffix.take().map(Err) only after the prefix is exhausted", "next_flag hands out the invalid suffix before the prefix is exhausted (guards %s)" % gl_)
+    res.floor("R13.8", "return constructions in next_flag", len(rets) + 2 * len(tk), 3)
     wsuf = [i for i, s_ in writes_field(nf, "invalid_suffix")]
     for i, s_ in rets:
         v = s_["rv"].get("variant")
@@ -276,6 +282,8 @@ def run(ctx):
         # elsewhere: covered when everything the block calls is one of the two unsafe operations R13.1 checks per call site
         # (ext::split_at, from_encoded_bytes_unchecked) or an ordinary safe call
         ob = [b for b in cl.bodies if b.q == owner or b.q.startswith(owner + "::{closure")]
+        if not ob:
+            ob = cl.bodies        # the owner is a freshly extracted helper that was inlined into its callers: its calls live there, with their spans
         inside = [c for b in ob for c in b.calls() if c.sp and sp_contains(u["span"], c.sp)]
         covered = bool(inside) and any(c.is_(r"^clap_lex::ext::split_at$", r"OsStr::from_encoded_bytes_unchecked$") for c in inside) and \
             not any(c.is_(r"unchecked|from_raw|transmute|ptr::|assume_init|::offset$|zeroed$|MaybeUninit|::add$|::sub$") and not c.is_(r"OsStr::from_encoded_bytes_unchecked$") for c in inside)
